@@ -14,7 +14,10 @@ RULE = ("two exhaustive families: (structure) ALL JSON values with <= N nodes ov
         "escape/astral/NUL string, 300-char string) and every key of {'', 'a', 'a b', non-ASCII} at every key position, plus "
         "depth-8 chains; each value is stored through every mutating entry point (root, nested dict, nested list, "
         "constructor) of every concrete class and read back through a FRESH object on the same resource; it must be equal "
-        "with the same JSON type at every leaf; non-trivial = distinct (value, entry point) pairs")
+        "with the same JSON type at every leaf; (overwrite) for every ordered pair of values that compare == but are "
+        "different JSON values (0/False/0.0/-0.0, 1/True/1.0, 2**53 int/float; bare and inside a dict, a list, a list in "
+        "a dict) the first is stored and then OVERWRITTEN by the second through every entry point that replaces a "
+        "position - the fresh object must read the second; non-trivial = distinct (value, entry point) pairs")
 BOUNDS = {"quick": "structure N=4 (JSONDict/JSONList N=5), leaves through 4 entry points per class",
           "thorough": "structure N=5 (JSONDict/JSONList N=6), leaves through every entry point"}
 ASSUMPTIONS = ["no random tail beyond the bound (sampling is a different technique)",
@@ -163,6 +166,25 @@ def entry_points(kind_, attr):
     return eps
 
 
+TWIN_SETS = ((0, False, 0.0, -0.0), (1, True, 1.0), (2 ** 53, float(2 ** 53)))
+WRAPS = (lambda x: x, lambda x: {"x": x}, lambda x: [x], lambda x: {"x": [0, x]})
+# entry points that replace the value at a fixed position (appending ones cannot overwrite)
+OVERWRITE_EPS = {"dict": ("setitem", "update-mapping", "update-pairs", "update-kwargs", "reset", "nested-dict-setitem",
+                          "nested-dict-update", "nested-list-setitem", "setattr", "nested-setattr"),
+                 "list": ("setitem", "setslice", "reset", "nested-dict-setitem")}
+
+
+def overwrite_pairs():
+    out = []
+    for ts in TWIN_SETS:
+        for a in ts:
+            for b in ts:
+                if not model.exact_eq(a, b):
+                    for w in WRAPS:
+                        out.append((w(a), w(b)))
+    return out
+
+
 LEAF_EPS = {"dict": ("setitem", "update-mapping", "nested-list-append", "constructor"),
             "list": ("append", "extend", "nested-dict-setitem", "constructor")}
 
@@ -174,6 +196,7 @@ def plan(tier, seed):
         n = (5 if main else 4) if tier == "quick" else (6 if main else 5)
         tasks.append({"kind": "c12", "label": "%s/structure<=%d" % (c, n), "clsname": c, "family": "structure", "n": n, "tier": tier})
         tasks.append({"kind": "c12", "label": "%s/leaves" % c, "clsname": c, "family": "leaves", "n": 3, "tier": tier})
+        tasks.append({"kind": "c12", "label": "%s/overwrite" % c, "clsname": c, "family": "overwrite", "n": 0, "tier": tier})
     return tasks
 
 
@@ -185,8 +208,8 @@ def too_big_for_mongo(v):
     return isinstance(v, int) and not isinstance(v, bool) and not -(2 ** 63) <= v < 2 ** 63
 
 
-def run_one(c, epname, ep, v):
-    """-> None or (kind, detail)"""
+def run_one(c, epname, ep, v, pre=None):
+    """-> None or (kind, detail).  pre = (old,): `old` is stored through the same entry point first."""
     kind_ = env.kind_of(c)
     if epname == "constructor":
         res = env.resource_for(c, ABSENT)
@@ -213,6 +236,8 @@ def run_one(c, epname, ep, v):
         try:
             o = res.make(c)
             try:
+                if pre is not None:
+                    apply_(o, pre[0])
                 apply_(o, v)
             except Exception as e:  # noqa: BLE001
                 return ("rejected", "%s(%r) raised %s: %s" % (epname, v, type(e).__name__, e))
@@ -223,6 +248,8 @@ def run_one(c, epname, ep, v):
         finally:
             res.destroy()
     if not model.exact_eq(got, v):
+        if pre is not None:
+            return ("overwrite-lost", "%s stored %r over %r, a fresh object reads %r" % (epname, v, pre[0], got))
         return ("altered", "%s stored %r, a fresh object reads %r" % (epname, v, got))
     return None
 
@@ -235,7 +262,13 @@ def run_task(task):
     attr = fam in env.ATTR_FAMILIES
     eps = entry_points(kind_, attr)
     eps["constructor"] = None
-    if task["family"] == "structure":
+    pres = None
+    if task["family"] == "overwrite":
+        pairs = overwrite_pairs()
+        values = [b for a, b in pairs]
+        pres = [(a,) for a, b in pairs]
+        names = [n for n in OVERWRITE_EPS[kind_] if n in eps]
+    elif task["family"] == "structure":
         values = structure_values(task["n"])
         names = list(eps)
     else:
@@ -243,11 +276,12 @@ def run_task(task):
         names = list(eps) if task["tier"] != "quick" else [n for n in LEAF_EPS[kind_]]
     res = new_result()
     seen = set()
-    for v in values:
+    for vi, v in enumerate(values):
         if fam == "MongoDB" and too_big_for_mongo(v):
             continue
         for nm in names:
-            bad = run_one(c, nm, eps[nm], v)
+            pre = pres[vi] if pres is not None else None
+            bad = run_one(c, nm, eps[nm], v, pre)
             res["evaluations"] += 1
             if bad is not None:
                 if len(res["violations"]) < 30:
@@ -255,7 +289,7 @@ def run_task(task):
                     desc = describe(v)
                     res["violations"].append({"signature": "%s|%s|%s|%s|%s" % (PROPERTY, c, nm, desc, k), "detail": d,
                                               "replay": {"engine": "c12", "module": __name__, "clsname": c, "entry": nm,
-                                                         "value": repr(v)}})
+                                                         "value": repr(v), "pre": repr(pre) if pre is not None else None}})
     res["nontrivial"] = res["evaluations"]
     res["states"] = len(values)
     res["samples"] = [{"class": c, "family": task["family"], "values": len(values), "entry_points": names,
@@ -286,5 +320,6 @@ def replay(doc):
     v = eval(doc["value"], {"__builtins__": {}})
     eps = entry_points(env.kind_of(c), env.family_of(c) in env.ATTR_FAMILIES)
     eps["constructor"] = None
-    bad = run_one(c, doc["entry"], eps[doc["entry"]], v)
+    pre = eval(doc["pre"], {"__builtins__": {}}) if doc.get("pre") else None
+    bad = run_one(c, doc["entry"], eps[doc["entry"]], v, pre)
     return [bad] if bad else []
